@@ -39,6 +39,8 @@ type simCase struct {
 	Cap    int       `json:"sndbuf"`
 	Merge  bool      `json:"merge_level_out"`
 	Origin string    `json:"origin"`
+	Hooks  string    `json:"hooks"` // default | onread (g.OnRead custom reader) | bufhooks (OnReadBufferAlloc/Free) | execute (custom Execute, writes from Conn.Execute jobs)
+	Deep   bool      `json:"deep_queue,omitempty"` // many queue entries that the send buffer takes all at once
 	OW     []wop     `json:"origin_writes"`
 	Steps  []simStep `json:"steps"`
 }
@@ -102,6 +104,8 @@ func genWrite(r *rand.Rand, cap int) wop {
 	return wop{Kind: "w", N: []int{genSize(r, cap)}}
 }
 
+var simHooks = []string{"default", "onread", "bufhooks", "execute"}
+
 var simOrigins = []string{"onopen", "ondata", "onclose", "goroutine", "main", "ondial", "dialnow"}
 
 func genSim(cs int64) simCase {
@@ -112,6 +116,16 @@ func genSim(cs int64) simCase {
 	c.Cap = []int{1, 2, 7, 64, 1000, 4096, 70000, 200 << 10}[r.Intn(8)]
 	c.Merge = r.Intn(2) == 0
 	c.Origin = simOrigins[r.Intn(len(simOrigins))]
+	c.Hooks = simHooks[r.Intn(len(simHooks))]
+	if c.Hooks == "onread" {
+		c.Async = false // with an application OnRead hook the poller never calls AsyncRead
+	}
+	c.Deep = r.Intn(5) == 0
+	if c.Deep {
+		// a send buffer that takes more than 3 queue entries at once: one write that fills it, then 5-9 writes of 40-64 KiB
+		// (one queue entry each) while it is full; when the peer has read everything one writability event has to flush them all
+		c.Cap = 420 << 10
+	}
 	// the origin's writes: at least one that is larger than the send buffer
 	nw := 1 + r.Intn(3)
 	big := r.Intn(nw)
@@ -136,7 +150,16 @@ func genSim(cs int64) simCase {
 		}
 		c.OW = append(c.OW, w)
 	}
+	if c.Deep {
+		c.OW = []wop{{Kind: "w", N: []int{c.Cap + 1 + r.Intn(1000)}}}
+		for i, k := 0, 5+r.Intn(5); i < k; i++ {
+			c.OW = append(c.OW, wop{Kind: "w", N: []int{40<<10 + r.Intn(24<<10+1)}})
+		}
+	}
 	ns := r.Intn(6)
+	if c.Deep {
+		ns = r.Intn(2)
+	}
 	for i := 0; i < ns; i++ {
 		var s simStep
 		k := r.Intn(7)
@@ -204,6 +227,19 @@ type simRun struct {
 	stalled bool
 	kinds   map[string]int
 	pendRead bool // the event the poller holds carries IN and its read part has not been dispatched yet (model: prd)
+}
+
+var payload []byte
+
+// sharedBuf is the source of every written byte (the library copies what it queues).
+func sharedBuf() []byte {
+	if payload == nil {
+		payload = make([]byte, 1<<20)
+		for i := range payload {
+			payload[i] = byte(i)
+		}
+	}
+	return payload
 }
 
 var sfFile *os.File
@@ -334,6 +370,9 @@ func (r *simRun) onRelease(t *verifsched.Thread, m *verifsched.Mutex) {
 	if i := strings.Index(fn, ".func"); i >= 0 { // closures of a library function
 		fn = fn[:i]
 	}
+	if i := strings.LastIndex(fn, ".(*"); i > 0 { // a closure of an inlined callee: "(*Conn).Execute.(*Conn).execute"
+		fn = fn[i+1:]
+	}
 	switch fn {
 	case "(*Conn).Write", "(*Conn).Writev":
 		if !(s.closed) {
@@ -358,7 +397,8 @@ func (r *simRun) onRelease(t *verifsched.Thread, m *verifsched.Mutex) {
 		r.act("rearm")
 	case "(*poller).addConn":
 		r.act("reg")
-	case "(*Conn).ReadAndGetConn", "(*Conn).Read", "(*Conn).SetDeadline", "(*Conn).setDeadline", "(*Conn).closeWithError":
+	case "(*Conn).ReadAndGetConn", "(*Conn).Read", "(*Conn).SetDeadline", "(*Conn).setDeadline", "(*Conn).closeWithError",
+		"(*Conn).Execute", "(*Conn).MustExecute", "(*Conn).execute", "(*Conn).ExecuteLen", "(*Conn).IsClosed":
 	default:
 		r.mismatch("critical section of Conn.mux taken by an unknown function %q", s.fn)
 	}
@@ -404,9 +444,16 @@ func (r *simRun) origin(c *nbio.Conn) {
 		return
 	}
 	r.odone = true
-	for _, w := range r.c.OW {
-		r.write(c, w)
+	issue := func() {
+		for _, w := range r.c.OW {
+			r.write(c, w)
+		}
 	}
+	if r.c.Hooks == "execute" {
+		c.Execute(issue) // a job of the connection's serializer, run by the application's Execute hook
+		return
+	}
+	issue()
 }
 
 // readDispatched: the poller has dispatched the IN part of the event it holds (the model's ReadDispatch): the read pass
@@ -529,6 +576,32 @@ func (r *simRun) scenario() {
 			r.origin(cn)
 		}
 	})
+	switch c.Hooks {
+	case "onread": // the application reads by itself (and re-arms a one-shot descriptor by itself)
+		r.eng.G.OnRead(func(cn *nbio.Conn) {
+			buf := make([]byte, 4096)
+			for {
+				n, err := cn.Read(buf)
+				if n > 0 && cn == r.A && c.Origin == "ondata" {
+					r.origin(cn)
+				}
+				if err != nil || n < len(buf) {
+					break
+				}
+			}
+			if c.Mode == 2 {
+				cn.ResetPollerEvent()
+			}
+		})
+	case "bufhooks":
+		r.eng.G.OnReadBufferAlloc(func(cn *nbio.Conn) *[]byte { b := make([]byte, 2048); return &b })
+		r.eng.G.OnReadBufferFree(func(cn *nbio.Conn, pbuf *[]byte) {})
+	case "execute":
+		r.eng.G.Execute = func(f func()) {
+			r.live++
+			verifsched.Go(func() { f(); r.live-- })
+		}
+	}
 	verifsched.Go(func() { r.eng.RunPoller() })
 
 	if r.m != nil {
@@ -626,10 +699,7 @@ func (r *simRun) scenario() {
 }
 
 func runSim(c simCase, m *hx.Model, rep *hx.Report, show bool) simResult {
-	r := &simRun{c: c, m: m, file: sharedFile(), buf: make([]byte, 1<<20), kinds: map[string]int{}}
-	for i := range r.buf {
-		r.buf[i] = byte(i)
-	}
+	r := &simRun{c: c, m: m, file: sharedFile(), buf: sharedBuf(), kinds: map[string]int{}}
 	rng := rand.New(rand.NewSource(c.Seed ^ 0x5eed))
 	s := verifsched.New(func(en []int) int { return rng.Intn(len(en)) })
 	s.Exclusive = true
@@ -642,11 +712,17 @@ func runSim(c simCase, m *hx.Model, rep *hx.Report, show bool) simResult {
 	if !ok && r.res.Stall == "" {
 		r.res.Spin = true
 	}
-	key := fmt.Sprintf("%s/%v/%d/%s/%d", mode, c.Async, c.Cap, c.Origin, len(r.res.Actions))
+	key := fmt.Sprintf("%s/%v/%d/%s/%s/%d", mode, c.Async, c.Cap, c.Origin, c.Hooks, len(r.res.Actions))
 	rep.Case(key, r.res.Backlog && r.res.OutEvents > 0)
 	rep.Ops += len(r.res.Actions)
 	rep.Stat("S.mode:" + mode)
 	rep.Stat("S.origin:" + c.Origin)
+	rep.Stat("S.hooks:" + c.Hooks)
+	rep.Stat("S.mode-hooks:" + mode + "/" + c.Hooks)
+	if c.Deep {
+		rep.Stat("S.deep-queue")
+		rep.Stat("S.deep-queue:" + mode + "/" + c.Hooks)
+	}
 	rep.Stat(fmt.Sprintf("S.sndbuf:%d", c.Cap))
 	if c.Async {
 		rep.Stat("S.async-read")
